@@ -15,4 +15,5 @@ require (
 	github.com/pierrec/lz4 v2.6.1+incompatible
 	github.com/vicanso/elton v1.4.2
 	github.com/vicanso/pike v0.0.0-00010101000000-000000000000
+	gopkg.in/yaml.v2 v2.4.0
 )
